@@ -234,3 +234,27 @@ mutant("c12-raw-indices-used", "C12", CAF, "        validated_inputs_as_nchw = t
 mutant("c12-origins-on-internal-value", "C12", CAF, "        self.ctx.record_symbolic_dim_origins(nchw_shape, nchw_input_val)", "        self.ctx.record_symbolic_dim_origins(aval_shape, transposed)", expect="origin-on-external-value")
 mutant("c12-all-outputs-bridged", "C12", CAF, "            if index in nchw_outputs_indices:\n                self.bind_output(out_var, index)\n            else:\n                self.ctx.add_outputs_from_vars([out_var])", "            if index in nchw_outputs_indices or len(out_var.aval.shape) == 4:\n                self.bind_output(out_var, index)\n            else:\n                self.ctx.add_outputs_from_vars([out_var])", expect="plain-path")
 benign("c12-benign-perm-as-list", "C12", CAF, "            perm=list(_NCHW_TO_NHWC_PERM),", "            perm=[int(p) for p in _NCHW_TO_NHWC_PERM],")
+
+# ----------------------------------------------------------------------------- C07
+mutant("c07-revert-static-fallback", "C07", PS, '                                "static",\n                                type(value_for_capture).__name__,\n                                repr(value_for_capture),\n', '                                "static",\n                                type(value_for_capture).__name__,\n', expect="capture-payload::static")
+mutant("c07-input-signature-without-dtype", "C07", PS, "            in_sigs.append((shape, str(dtype)))", "            in_sigs.append((shape,))", expect="input-signature")
+mutant("c07-input-signature-rank-only", "C07", PS, "            in_sigs.append((shape, str(dtype)))", "            in_sigs.append((len(getattr(aval, 'shape', ())), str(dtype)))", expect="input-signature")
+mutant("c07-const-capture-without-bytes", "C07", PS, "                str(arr.dtype),\n                hash(arr.tobytes()),\n            )", "                str(arr.dtype),\n            )", expect="_capture_const")
+mutant("c07-key-without-captures", "C07", PS, "            qualified_name=qualname, input_sig=in_sigs_t, capture_sig=capture_sig\n", "            qualified_name=qualname, input_sig=in_sigs_t, capture_sig=(id(callee),)\n", expect="FunctionKey")
+mutant("c07-static-param-skipped", "C07", PS, "                value_for_capture = resolved if resolved is not None else original_val\n", "                value_for_capture = resolved if resolved is not None else original_val\n                if isinstance(value_for_capture, (bool, str)):\n                    static_params[pname] = original_val\n                    continue\n", expect="capture-per-parameter")
+mutant("c07-default-mode-ignores-instance", "C07", PS, "            capture_sig = (id(callee), tuple(capture_items))", "            capture_sig = (tuple(capture_items),)", expect="callee-identity")
+mutant("c07-unique-ignores-instance-state", "C07", PS, '            signature_parts.append(\n                ("instance_state", self._fingerprint_instance_state(callee))\n            )\n', "", expect="_build_unique_signature")
+mutant("c07-array-fingerprint-shape-only", "C07", PS, '                return ("array", shape, dtype, digest)', '                return ("array", shape, dtype)', expect="_value_fingerprint")
+benign("c07-benign-payload-order", "C07", PS, "            in_sigs.append((shape, str(dtype)))", "            in_sigs.append((str(dtype), shape))")
+
+# ----------------------------------------------------------------------------- C04
+LDF = "jax2onnx/converter/lower_dimexpr.py"
+multi("c04-revert-memo-tags", "C04", "mutant", [(LDF, 'key = f"factor:{factor}"', "key = str(factor)"), (LDF, 'key = f"coeff_term:{term}"', "key = str(term)")], expect="memo-key")
+mutant("c04-two-producers-same-tag", "C04", LDF, 'key = f"coeff_term:{term}"', 'key = f"factor:{term}"', expect="memo-key")
+mutant("c04-floordiv-as-mod", "C04", LDF, "                self.ctx.builder.Div(\n                    operands[0],\n                    operands[1],", "                self.ctx.builder.Mod(\n                    operands[0],\n                    operands[1],", expect="floordiv")
+mutant("c04-floordiv-operands-swapped", "C04", LDF, "                self.ctx.builder.Div(\n                    operands[0],\n                    operands[1],", "                self.ctx.builder.Div(\n                    operands[1],\n                    operands[0],", expect="floordiv")
+mutant("c04-unknown-op-silently-first-operand", "C04", LDF, '            raise RuntimeError(f"Unhandled operation in LowerDimExpr: {name}")', "            result = operands[0]", expect="unknown-operation")
+mutant("c04-input-origins-not-recorded", "C04", "jax2onnx/converter/ir_context.py", "        self.add_graph_input_value(val)\n        self.record_symbolic_dim_origins(shp, val)\n        return val", "        self.add_graph_input_value(val)\n        return val", expect="origins::val")
+mutant("c04-axis-pairing-broken", "C04", "jax2onnx/converter/ir_context.py", "        for dim, axis in zip(dims_tuple, axes_tuple):\n            self.record_symbolic_dim_origin(dim, value, axis)", "        for dim, axis in zip(dims_tuple, axes_tuple):\n            self.record_symbolic_dim_origin(dim, value, 0)", expect="axis-pairing")
+mutant("c04-scope-per-symbol", "C04", CAF, "        syms = jax_export.symbolic_shape(n, scope=shared_scope)", "        syms = jax_export.symbolic_shape(n)", expect="symbolic_shape-scope")
+benign("c04-benign-tag-rename", "C04", LDF, 'key = f"coeff_term:{term}"', 'key = f"term_with_coefficient:{term}"')
